@@ -184,7 +184,7 @@ func ruleRT4(c *Ctx) *rule {
 		cur = next
 	}
 	if len(r.Instances) == 0 {
-		lost("nothing returns the results of the run loop")
+		r.ok(fname(rl.fn)+" results consumed in place", c.ipos(rl.X), "no function lies between the run loop and its consumer (GR6 checks the value returned by the loop's function)")
 	}
 	return r
 }
@@ -213,9 +213,23 @@ func ruleCL6(c *Ctx) *rule {
 			if !res.hasField("file.SpokFile.Dir") {
 				continue
 			}
-			// only conditions that also involve a path being cleaned (a string derived from the removal list)
-			call, isCall := cond.(*ssa.Call)
-			if !isCall {
+			// only conditions computed from a containment primitive applied to the root: Rel(root, p), IsLocal, HasPrefix(p, <root...>)
+			relevant := false
+			for _, rc := range append(append([]*ssa.Call{}, res.calls["path/filepath.Rel"]...), res.calls["path/filepath.IsLocal"]...) {
+				as := c.newSlicer()
+				as.depth = 1
+				if as.run(rc.Common().Args...).hasField("file.SpokFile.Dir") || calleeName(rc.Common()) == "path/filepath.IsLocal" {
+					relevant = true
+				}
+			}
+			for _, hp := range res.calls["strings.HasPrefix"] {
+				as := c.newSlicer()
+				as.depth = 1
+				if as.run(hp.Common().Args[1]).hasField("file.SpokFile.Dir") {
+					relevant = true
+				}
+			}
+			if !relevant {
 				continue
 			}
 			n++
@@ -226,6 +240,9 @@ func ruleCL6(c *Ctx) *rule {
 				ps := c.newSlicer()
 				ps.depth = 1
 				pres := ps.run(hp.Common().Args[1])
+				if !pres.hasField("file.SpokFile.Dir") {
+					continue // a prefix test on something else (e.g. on the relative path computed by Rel)
+				}
 				sep := false
 				for _, cst := range pres.consts {
 					if s, ok := constString(cst); ok && (strings.HasSuffix(s, "/") || strings.HasSuffix(s, "\\")) {
@@ -239,7 +256,6 @@ func ruleCL6(c *Ctx) *rule {
 					badPrefix = c.ipos(hp)
 				}
 			}
-			_ = call
 			switch {
 			case badPrefix != "":
 				r.bad(key, badPrefix, "containment is decided by a bare textual prefix (no path separator, no filepath.Rel): a sibling directory sharing the project's name as prefix passes the test")
@@ -861,4 +877,218 @@ func (c *Ctx) wholeRequest(p *ssa.Parameter, depth int) string {
 		}
 	}
 	return ""
+}
+
+// ---- HS5: every element of the input list becomes a job ------------------------------------------------------------------------------
+
+func ruleHS5(c *Ctx) *rule {
+	r := &rule{ID: "HS5", Engine: "E2+E5", Floor: 1,
+		Statement: "the producer sends every element of the input list on the jobs channel: the send sits in a loop that ranges over the whole list parameter front to back and every way round sends the element at hand exactly once",
+		Necessity: "an element that is never sent is never hashed: editing, adding or removing that file leaves the digest unchanged"}
+	t := c.hashTopology()
+	t.describe(r)
+	if !t.requireTopology(r) {
+		return r
+	}
+	var listParam *ssa.Parameter
+	for _, p := range t.fn.Params {
+		if sl, ok := p.Type().Underlying().(*types.Slice); ok {
+			if b, ok := sl.Elem().Underlying().(*types.Basic); ok && b.Kind() == types.String {
+				listParam = p
+			}
+		}
+	}
+	if listParam == nil {
+		r.undecided(fname(t.fn)+" list parameter", c.pos(t.fn.Pos()), "Hash has no []string parameter")
+		return r
+	}
+	for i, s := range t.jobs.send {
+		sd, ok := s.instr.(*ssa.Send)
+		if !ok {
+			continue
+		}
+		key := fmt.Sprintf("%s send(jobs)#%d covers-list", fname(s.fn), i+1)
+		fi := c.info(s.fn)
+		l := fi.innermostLoop(sd.Block())
+		if l == nil {
+			r.bad(key, c.ipos(sd), "the send is not in a loop over the input list")
+			continue
+		}
+		// the sent value is list[idx]
+		var ia *ssa.IndexAddr
+		for _, o := range origins(sd.X) {
+			if u, ok := o.(*ssa.UnOp); ok && u.Op == token.MUL {
+				if x, ok := u.X.(*ssa.IndexAddr); ok {
+					ia = x
+				}
+			}
+		}
+		if ia == nil {
+			r.bad(key, c.ipos(sd), "what is sent is not an element of the input list")
+			continue
+		}
+		// the indexed slice is the list parameter itself (possibly through the closure cell), not a re-slice
+		isList := false
+		sl := c.newSlicer()
+		sl.depth = 0
+		res := sl.run(ia.X)
+		for _, p := range res.params {
+			if p == listParam {
+				isList = true
+			}
+		}
+		for v := range res.vals {
+			if _, ok := v.(*ssa.Slice); ok {
+				isList = false
+			}
+		}
+		// full forward range
+		full := false
+		for _, p := range l.headerPhis() {
+			if !l.isInduction(p) {
+				continue
+			}
+			idxOK := ia.Index == ssa.Value(p)
+			if b, ok := ia.Index.(*ssa.BinOp); ok && b.Op == token.ADD && b.X == ssa.Value(p) {
+				if n, ok := constInt(b.Y); ok && n == 1 {
+					idxOK = true
+				}
+			}
+			if !idxOK {
+				continue
+			}
+			for _, b := range s.fn.Blocks {
+				if !l.body[b] {
+					continue
+				}
+				if iff, ok := lastInstr(b).(*ssa.If); ok {
+					if bo, ok := iff.Cond.(*ssa.BinOp); ok && bo.Op == token.LSS {
+						if cl, ok := bo.Y.(*ssa.Call); ok {
+							if bi, ok := cl.Call.Value.(*ssa.Builtin); ok && bi.Name() == "len" && cl.Call.Args[0] == ia.X {
+								full = true
+							}
+						}
+					}
+				}
+			}
+		}
+		// every way round sends once
+		once := true
+		type st struct {
+			b *ssa.BasicBlock
+			n int
+		}
+		seen := map[st]bool{}
+		var dfs func(b *ssa.BasicBlock, n int)
+		dfs = func(b *ssa.BasicBlock, n int) {
+			if seen[st{b, n}] {
+				return
+			}
+			seen[st{b, n}] = true
+			for _, in := range b.Instrs {
+				if x, ok := in.(*ssa.Send); ok && t.jobs.alias[x.Chan] {
+					n++
+				}
+			}
+			for _, nx := range b.Succs {
+				if nx == l.header && l.body[b] {
+					if n != 1 {
+						once = false
+					}
+					continue
+				}
+				if l.body[nx] {
+					dfs(nx, n)
+				}
+			}
+		}
+		for _, nx := range l.header.Succs {
+			if l.body[nx] {
+				dfs(nx, 0)
+			}
+		}
+		switch {
+		case !isList:
+			r.bad(key, c.ipos(sd), "the loop does not range over the input list parameter itself (a re-slice or another list)")
+		case !full:
+			r.bad(key, c.ipos(sd), "the loop does not visit every index of the input list")
+		case !once:
+			r.bad(key, c.ipos(sd), "some way round the loop does not send the element exactly once")
+		default:
+			r.ok(key, c.ipos(sd), "every element of the list is sent exactly once")
+		}
+	}
+	return r
+}
+
+// ---- ST8: listing rows ---------------------------------------------------------------------------------------------------------------------
+
+func ruleST8(c *Ctx) *rule {
+	r := &rule{ID: "ST8", Engine: "E3", Floor: 2,
+		Statement: "each row of the task listing is built from a task's name and the Doc of the task looked up under that very name; each row of the variable listing from a variable's name and the value looked up under that very name",
+		Necessity: "a row that pairs a name with another entry's docstring / value is not a faithful account of the spokfile"}
+	for _, want := range []struct{ atom, mapField, valField, what string }{
+		{"opt:Show=true", "file.SpokFile.Tasks", "task.Task.Doc", "task"},
+		{"opt:Variables=true", "file.SpokFile.Vars", "", "variable"},
+	} {
+		found := false
+		for _, f := range c.ModFuncs {
+			for _, site := range callSites(f) {
+				if !streamWriters[calleeName(site.Common())] && calleeName(site.Common()) != "fmt.Sprintf" {
+					continue
+				}
+				if !c.underAtom(site, want.atom) {
+					continue
+				}
+				sl := c.newSlicer()
+				sl.depth = 0
+				res := sl.run(site.Common().Args...)
+				var lk *ssa.Lookup
+				for _, v := range res.order {
+					if x, ok := v.(*ssa.Lookup); ok && isFieldLoad(x.X, want.mapField) {
+						lk = x
+					}
+				}
+				if lk == nil {
+					continue
+				}
+				found = true
+				key := fmt.Sprintf("%s %s-row", fname(f), want.what)
+				// the name printed is the lookup key
+				nameOK := false
+				for _, a := range site.Common().Args {
+					as := c.newSlicer()
+					as.depth = 0
+					ar := as.run(a)
+					for _, o := range origins(lk.Index) {
+						if ar.has(o) && !ar.has(lk) {
+							nameOK = true
+						}
+					}
+					if ar.has(lk.Index) && !ar.has(lk) {
+						nameOK = true
+					}
+				}
+				// directly: some argument's slice contains the key value without the lookup; simpler: the key itself is an argument origin
+				for _, v := range res.order {
+					if v == lk.Index {
+						nameOK = true
+					}
+				}
+				valOK := want.valField == "" || res.hasField(want.valField)
+				switch {
+				case !valOK:
+					r.bad(key, c.ipos(site), "the row does not show "+want.valField+" of the task looked up by name")
+				case !nameOK:
+					r.bad(key, c.ipos(site), "the name shown is not the key under which the entry was looked up")
+				default:
+					r.ok(key, c.ipos(site), "name and the entry looked up under that name")
+				}
+			}
+		}
+		if !found {
+			r.bad("listing "+want.what+" rows", "-", "no output row on the "+want.atom+" branch is built from a lookup in "+want.mapField)
+		}
+	}
+	return r
 }
